@@ -29,14 +29,15 @@ SYNC_OPTS = {
 }
 
 
-def sync_ir_gen(rng, wild=False):
+def sync_ir_gen(rng, wild=False, with_return=False):
     """IRs on which the per-kind round trips are faithful (typed + documented, plain
     defaults), so that what the sync checks observe is the sync machinery itself."""
     if wild:
         return IRGen(rng, knobs(argparse_domain=True))
     return IRGen(rng, knobs(argparse_domain=True, p_untyped=0.0, p_no_doc=0.0, p_none_default=0.0, p_hostile_doc=0.0,
                             p_long_doc=0.0, p_long_summary=0.0, p_multi_line_summary=0.0, p_kwargs=0.15,
-                            p_zero_params=0.0, p_return=0.0, p_code_default=0.0, max_params=4))
+                            p_zero_params=0.0, p_return=1.0 if with_return else 0.0, p_return_default=1.0, p_return_typ=1.0,
+                            p_return_doc=1.0, p_code_default=0.0, max_params=4))
 
 
 def restrict_ir(ir):
@@ -114,11 +115,11 @@ class Project:
         return argv
 
 
-def make_project(rng, root, truth, prestates, method=False, rich=False, kinds=KINDS, wild=False, ir=None, stale_ir=None):
+def make_project(rng, root, truth, prestates, method=False, rich=False, kinds=KINDS, wild=False, ir=None, stale_ir=None, with_return=False):
     """prestates: {kind: prestate} for the non-truth kinds."""
     p = Project(root)
     p.truth, p.method = truth, method
-    g = sync_ir_gen(rng, wild)
+    g = sync_ir_gen(rng, wild, with_return)
     if ir is None:
         ir, _ = g.ir()
         ir = ir if wild else restrict_ir(ir)
